@@ -112,6 +112,10 @@ func (g *gen) u32() uint64 {
 var vbEdges = []uint64{1, 2, 126, 127, 128, 129, 16382, 16383, 16384, 16385, 2097150, 2097151, 2097152, 2097153, 268435454, 268435455}
 
 func (g *gen) subID() uint64 {
+	if g.chance(0.2) {
+		// multi-byte encodings whose leading bytes carry no value bits (80 01, 80 80 01, …)
+		return []uint64{128, 256, 16384, 32768, 2097152}[g.r.Intn(5)]
+	}
 	if g.chance(0.5) {
 		return vbEdges[g.r.Intn(len(vbEdges))]
 	}
